@@ -401,6 +401,18 @@ func (tc *TrCtx) tr0(e Expr) TVal {
 				}
 			}
 		}
+		if id, ok := e.X.(*EIdent); ok {
+			if _, isVar := tc.vars[id.Name]; !isVar {
+				if _, isLocal := tc.lookupLocal(id.Name); !isLocal {
+					if p := tc.vc.eng.findPkg(id.Name, tc.pkg); p != nil {
+						if gv, ok := p.Scope().Lookup(e.Name).(*types.Var); ok {
+							ref := tc.vc.globalRef(p.Path(), p.Name(), e.Name)
+							return TVal{tc.vc.loadPtr(tc.st, ref, gv.Type()), gv.Type()}
+						}
+					}
+				}
+			}
+		}
 		v := tc.tr(e.X)
 		path, _, ok := findField(v.typ, e.Name)
 		if !ok {
@@ -482,6 +494,14 @@ func (tc *TrCtx) tr0(e Expr) TVal {
 	}
 	trFail("cannot translate %s (%T)", e, e)
 	return TVal{}
+}
+
+func (tc *TrCtx) lookupLocal(name string) (TVal, bool) {
+	if tc.locals == nil {
+		return TVal{}, false
+	}
+	defer func() { recover() }()
+	return tc.locals(name)
 }
 
 func (tc *TrCtx) tryResultIndex(id, field string) *TVal {
@@ -695,8 +715,12 @@ func (tc *TrCtx) trCall(e *ECall) TVal {
 			}
 		}
 		recv := tc.tr(e.Recv)
-		obj, _, _ := types.LookupFieldOrMethod(recv.typ, true, nil, e.Fun)
+		obj, index, _ := types.LookupFieldOrMethod(recv.typ, true, nil, e.Fun)
 		fo, ok := obj.(*types.Func)
+		if ok && len(index) > 1 {
+			// promoted method: descend to the embedded receiver
+			recv = tc.selectPath(recv, index[:len(index)-1])
+		}
 		if !ok {
 			// unexported method of another package
 			fo = lookupMethodAnyPkg(recv.typ, e.Fun)
